@@ -12,7 +12,6 @@ import (
 	"math/rand/v2"
 	"net"
 	"os"
-	"runtime"
 	"sync"
 	"time"
 
@@ -407,8 +406,9 @@ func runHPHistory(r *mon.Run, s hpSetup, pool []*variant, ops []hpOp, mode dbMod
 		fmt.Fprintf(os.Stderr, "store: cannot open path db: %v\n", err)
 		os.Exit(2)
 	}
-	ctx, cancel := context.WithTimeout(context.Background(), 5*time.Minute)
-	defer cancel()
+	// No deadline: with a cancellable context the sqlite driver starts a
+	// goroutine per row; hangs are the driver script's watchdog's business.
+	ctx := context.Background()
 	ver := &scriptedVerifier{bad: map[string]bool{}}
 	for _, v := range pool {
 		if v.BadSig {
@@ -423,6 +423,9 @@ func runHPHistory(r *mon.Run, s hpSetup, pool []*variant, ops []hpOp, mode dbMod
 		table: s.table(), model: storeref.NewPathStore(), pool: pool, reader: mode.reader}
 	var wg sync.WaitGroup
 	stop := make(chan struct{})
+	// the reader performs a bounded number of reads per judged operation
+	// (concurrently with it) instead of spinning on the database
+	tick := make(chan struct{}, 4)
 	if mode.reader {
 		wg.Add(1)
 		go func() { // unjudged concurrent requester, for the race detector only
@@ -436,17 +439,22 @@ func runHPHistory(r *mon.Run, s hpSetup, pool []*variant, ops []hpOp, mode dbMod
 						r.EventN("concurrent_requests", int64(n))
 					}
 					return
-				default:
+				case <-tick:
 				}
 				g := pick(rrng, s.Groups)
 				_, _ = h.auth.Segments(ctx, hiddenpath.SegmentRequest{GroupIDs: toGroupIDs([]uint64{g.ID}),
 					DstIA: addr.IA(pick(rrng, pool).Ref.Last), Peer: addr.IA(pick(rrng, g.Writers))})
 				n++
-				runtime.Gosched()
 			}
 		}()
 	}
 	for i, op := range ops {
+		for k := 0; k < 2 && mode.reader; k++ {
+			select {
+			case tick <- struct{}{}:
+			default:
+			}
+		}
 		var fl *failure
 		if p, stack := mon.Try(func() { fl = h.exec(op) }); p != nil {
 			fl = failf("C45:panic:"+mon.PanicSite(stack), "panic in %s: %v\n%s", op.Kind, p, stack)
